@@ -229,7 +229,12 @@ impl Linker {
         // changed. We want inputs-changed errors to take precedence over all other errors.
         let result = self.load_inputs_and_link::<P, A>(&mut file_loader, args);
 
-        file_loader.verify_inputs_unchanged()?;
+        if let Err(error) = file_loader.verify_inputs_unchanged() {
+            if result.is_ok() {
+                file_writer::remove_failed_output(args.output());
+            }
+            return Err(error);
+        }
 
         // Write the dependency file and inputs trace after successful linking.
         if result.is_ok() {
@@ -240,7 +245,8 @@ impl Linker {
                             "Failed to write dependency file `{}`",
                             dep_file_path.display()
                         )
-                    })?;
+                    })
+                    .inspect_err(|_| file_writer::remove_failed_output(args.output()))?;
             }
             if args.should_write_trace_file() {
                 let mut buf = BufWriter::new(std::io::stdout());
@@ -367,6 +373,8 @@ impl Linker {
         // We've finished linking. We consider everything from this point onwards as shutdown.
         let (g1, g2) = timing_guard!("Shutdown");
         self.shutdown_scope.store(vec![Box::new(g1), Box::new(g2)]);
+
+        output.commit();
 
         Ok(LinkerOutput {
             layout: Some(Box::new(layout)),
